@@ -44,6 +44,38 @@ let p_chain = function
       if rest <> [] then raise (Parse "trailing") else c
   | [] -> raise (Parse "chain")
 
+(* nested SIZE expressions (Fix/CtNest.v):
+     c09n <O|B|I|M|Q|W> <bare 0|1> <nchain>     model
+     spec_c09n <nchain>                          spec (CtNest.nroot / nextc)
+   nchain ::= n nlink*n ; nlink ::= k nspec*k ; nspec ::= r ness | x ness | a ness ness
+   ness ::= S spec | u ness ness | i ness ness | e ness ness | p ness *)
+let rec p_ness = function
+  | "S" :: tl -> let (s, tl) = p_spec tl in (NSize s, tl)
+  | "u" :: tl -> let (a, tl) = p_ness tl in let (b, tl) = p_ness tl in (NUnion (a, b), tl)
+  | "i" :: tl -> let (a, tl) = p_ness tl in let (b, tl) = p_ness tl in (NInter (a, b), tl)
+  | "e" :: tl -> let (a, tl) = p_ness tl in let (b, tl) = p_ness tl in (NExcept (a, b), tl)
+  | "p" :: tl -> let (a, tl) = p_ness tl in (NParen a, tl)
+  | _ -> raise (Parse "ness")
+
+let p_nspec = function
+  | "r" :: tl -> let (a, tl) = p_ness tl in (NRoot a, tl)
+  | "x" :: tl -> let (a, tl) = p_ness tl in (NExt a, tl)
+  | "a" :: tl -> let (a, tl) = p_ness tl in let (b, tl) = p_ness tl in (NExtAdd (a, b), tl)
+  | _ -> raise (Parse "nspec")
+
+let p_nlink = function
+  | k :: tl -> p_n p_nspec (int_of_string k) tl
+  | [] -> raise (Parse "nlink")
+
+let p_nchain = function
+  | n :: tl -> let (c, rest) = p_n p_nlink (int_of_string n) tl in
+      if rest <> [] then raise (Parse "trailing") else c
+  | [] -> raise (Parse "nchain")
+
+let p_ntype = function
+  | "O" | "B" | "I" | "M" -> TOctetString | "Q" | "W" -> TSequenceOf
+  | _ -> raise (Parse "ntype")
+
 let p_type = function
   | "T" -> (TInteger, false) | "O" -> (TOctetString, true) | "Q" -> (TSequenceOf, true)
   | _ -> raise (Parse "type")
@@ -86,6 +118,13 @@ let model_line ty chain =
     (col VisNone) (col VisOER) (col VisPER) (row_s pv) (row_s ps)
     (string_of_cz ow) (string_of_cz op) (string_of_cz os)
 
+let nmodel_line ty bare chain =
+  let t = p_ntype ty in
+  let p = npullup (bare = "1") chain in
+  let col v = explain true (ncompute_top t p ReqSize v) v in
+  Printf.sprintf "prac=%s oer=%s per=%s PERS=%s OERS=%s"
+    (col VisNone) (col VisOER) (col VisPER) (row_s (nper_size_row t p)) (string_of_cz (noer_size t p))
+
 (* ---- Spec side ---- *)
 let xz_s = function NegInf -> "MIN" | PosInf -> "MAX" | Fin z -> string_of_cz z
 let iset_s size ext (s : iset) =
@@ -107,6 +146,11 @@ let spec_line ty chain =
     (iset_s size x (root true size chain)) (iset_s size x (root false size chain))
     (bool_s e.e_empty) (row_s (tables_of e)) oer (xz_s e.e_lb) (xz_s e.e_ub)
 
+let nspec_line chain =
+  let e = nper_effective chain in
+  Printf.sprintf "vis=%s empty=%s PERS=%s ext=%s"
+    (iset_s true (nextc chain) (nroot true chain)) (bool_s e.e_empty) (row_s (tables_of e)) (bool_s (nextc chain))
+
 (* known-finding classifier: the Spec changed by the rules named in the mask (letters of "aceu") *)
 let quirk_line mask ty chain =
   let (_, size) = p_type ty in
@@ -124,5 +168,7 @@ let dispatch cmd args =
   match cmd, args with
   | "c09", ty :: rest -> (try Some (model_line ty (p_chain rest)) with Parse s -> Some ("PARSE " ^ s))
   | "quirk_c09", mask :: ty :: rest -> (try Some (quirk_line mask ty (p_chain rest)) with Parse s -> Some ("PARSE " ^ s))
+  | "c09n", ty :: bare :: rest -> (try Some (nmodel_line ty bare (p_nchain rest)) with Parse s -> Some ("PARSE " ^ s))
+  | "spec_c09n", rest -> (try Some (nspec_line (p_nchain rest)) with Parse s -> Some ("PARSE " ^ s))
   | "spec_c09", ty :: rest -> (try Some (spec_line ty (p_chain rest)) with Parse s -> Some ("PARSE " ^ s))
   | _ -> None
